@@ -24,6 +24,8 @@ enum Op {
     Warm { addr: u64, count: u64 },
     Retry(u16),
     Dev { mc: u32, ma: u32, ms: u16, plan: Vec<u16> },
+    /// the device changes what its bootstrap registers advertise (takes effect at the next open)
+    Advertise { mc: u32, ma: u32, resp_ms: u32 },
 }
 
 #[derive(Clone, Debug)]
@@ -47,6 +49,7 @@ fn op_json(o: &Op) -> Value {
         Op::Warm { addr, count } => json!({"op": "warm", "addr": addr.to_string(), "count": count}),
         Op::Retry(r) => json!({"op": "retry", "n": r}),
         Op::Dev { mc, ma, ms, plan } => json!({"op": "dev", "mc": mc, "ma": ma, "ms": ms, "plan": plan}),
+        Op::Advertise { mc, ma, resp_ms } => json!({"op": "advertise", "mc": mc, "ma": ma, "resp_ms": resp_ms}),
     }
 }
 
@@ -60,6 +63,7 @@ fn op_from(v: &Value) -> Op {
         "write" => Op::Write { addr: a("addr"), n: u("n") as usize, pat: u("pat") },
         "warm" => Op::Warm { addr: a("addr"), count: u("count") },
         "retry" => Op::Retry(u("n") as u16),
+        "advertise" => Op::Advertise { mc: u("mc") as u32, ma: u("ma") as u32, resp_ms: u("resp_ms") as u32 },
         "dev" => Op::Dev {
             mc: u("mc") as u32,
             ma: u("ma") as u32,
@@ -141,7 +145,7 @@ fn check_wire(host: &Host, txns: &[Txn], first_txn_index: u64) -> Result<Vec<Cmd
             return Err(format!("command #{i}: flags {:#x}", c.flags));
         }
         if c.request_id != id {
-            return Err(format!("command #{i}: request id {} but {} expected (previous completed id + 1 mod 2^16)", c.request_id, id));
+            return Err(format!("command #{i}: request id {} but {} expected (previous sent command's id + 1 mod 2^16)", c.request_id, id));
         }
         if t.cmd.len() as u64 > host.cfg_cmd as u64 {
             return Err(format!("command #{i}: {} bytes exceed the negotiated maximum command length {}", t.cmd.len(), host.cfg_cmd));
@@ -181,6 +185,10 @@ struct Run<'a> {
     usb: Arc<FakeUsb>,
     h: ControlHandle,
     host: Host,
+    /// what the device's bootstrap registers advertise right now (command, ack, response time)
+    adv: (u32, u32, u32),
+    /// number of successful opens so far (the ABRM capability is cached after the first)
+    opens: u32,
 }
 
 impl<'a> Run<'a> {
@@ -202,10 +210,9 @@ impl<'a> Run<'a> {
     }
 
     fn after_op(&mut self, txns: &[Txn]) {
-        for t in txns {
-            if completed(t) {
-                self.host.next_id = self.host.next_id.wrapping_add(1);
-            }
+        // the code draws a fresh request id for every command it puts on the wire
+        for _ in txns {
+            self.host.next_id = self.host.next_id.wrapping_add(1);
         }
     }
 
@@ -229,6 +236,9 @@ impl<'a> Run<'a> {
                 break;
             }
         }
+        if std::mem::take(&mut self.usb.lock().host_blocked) {
+            self.violation("host-would-block", "a bulk-in transfer without timeout (0 ms) was started while the device had nothing to deliver".into(), i);
+        }
         let st = wire_stat(wire);
         if elapsed_ms < st.sleep_ms {
             self.violation("pending-not-awaited", format!("{} pending acknowledges asked for {} ms in total, the call returned after {elapsed_ms} ms", st.sleeps, st.sleep_ms), i);
@@ -245,7 +255,7 @@ impl<'a> Run<'a> {
     fn step(&mut self, i: usize) {
         let op = self.spec.ops[i].clone();
         let txn0 = self.usb.lock().txn;
-        let timeout_before = dur_ms(self.h.timeout_duration());
+        let timeout_before = dur_ms(self.h.timeout_duration()).max(1); // transfer_timeout(): never 0
         let started = std::time::Instant::now();
         match op {
             Op::Open => {
@@ -262,12 +272,11 @@ impl<'a> Run<'a> {
                 };
                 let was_open = self.host.opened;
                 if matches!(r, Ok(Ok(()))) && !was_open {
-                    self.host.cfg_cmd = self.spec.adv_cmd;
-                    self.host.cfg_ack = self.spec.adv_ack;
+                    self.host.cfg_cmd = self.adv.0;
+                    self.host.cfg_ack = self.adv.1;
                 }
-                if !was_open && !wire.is_empty() {
-                    // claim succeeded => channel is open even if a later step failed
-                    self.host.opened = matches!(wire.first(), Some(Wire::Claim(_, None)));
+                if !was_open {
+                    self.host.opened = matches!(r, Ok(Ok(())));
                 }
                 // oracle: against the conforming device (no limits enforced yet) open succeeds,
                 // with sequential ids, and negotiates the advertised values
@@ -276,11 +285,21 @@ impl<'a> Run<'a> {
                         self.violation("open-failed", format!("open against a conforming device: {ans}"), i);
                     } else if let Err(w) = check_wire(&Host { cfg_cmd: 128, cfg_ack: 128, ..self.host_clone() }, &txns, txn0) {
                         self.violation("open-wire", w, i);
-                    } else if self.h.timeout_duration().as_millis() as u64 != self.spec.resp_ms as u64 {
+                    } else if self.h.timeout_duration().as_millis() as u64 != self.adv.2 as u64 {
                         self.violation("open-config", "timeout not taken from the device".into(), i);
+                    } else {
+                        // the bootstrap registers are read with the INITIAL 128/128 limits whatever an
+                        // earlier connection negotiated: one command per register (the ABRM
+                        // capability only at the first open, it is cached)
+                        let want: Vec<u16> = if self.opens == 0 { vec![8, 8, 8, 4, 4, 4] } else { vec![8, 8, 4, 4, 4] };
+                        let got: Vec<u16> = txns.iter().filter_map(|t| match decode_cmd(&t.cmd).map(|c| c.body) { Some(CmdBody::ReadMem { len, .. }) => Some(len), _ => None }).collect();
+                        if got != want {
+                            self.violation("open-bootstrap-chunking", format!("bootstrap reads {got:?}, expected {want:?} (initial limits 128/128)"), i);
+                        }
+                        self.opens += 1;
                     }
                 }
-                self.rep.case(&format!("open {} {} {}", self.spec.adv_cmd, self.spec.adv_ack, self.spec.resp_ms), true);
+                self.rep.case(&format!("open {} {} {} {}", self.adv.0, self.adv.1, self.adv.2, self.opens), true);
                 self.rep.count("op:open");
                 let cfg = format!(" cfg={}/{}/{}", self.host.cfg_cmd, self.host.cfg_ack, self.h.timeout_duration().as_millis());
                 let sfx = self.suffix(&wire);
@@ -319,6 +338,19 @@ impl<'a> Run<'a> {
                 self.host.dev_limits = Some((mc, ma));
                 let p = if plan.is_empty() { "-".to_string() } else { plan.iter().map(|x| x.to_string()).collect::<Vec<_>>().join(",") };
                 self.line(format!("c06 dev {mc} {ma} {ms} {p}"), "ok".into());
+            }
+            Op::Advertise { mc, ma, resp_ms } => {
+                let sbrm = self.spec.sbrm_addr;
+                let pokes: Vec<(u64, Vec<u8>)> = vec![
+                    (sbrm.wrapping_add(regs::SBRM_MAX_CMD_TRANSFER_LENGTH), mc.to_le_bytes().to_vec()),
+                    (sbrm.wrapping_add(regs::SBRM_MAX_ACK_TRANSFER_LENGTH), ma.to_le_bytes().to_vec()),
+                    (regs::ABRM_MAX_DEVICE_RESPONSE_TIME, resp_ms.to_le_bytes().to_vec()),
+                ];
+                for (a, bs) in pokes {
+                    self.usb.lock().mem.write(a, &bs);
+                    self.line(format!("c06 poke {a} {}", hex(&bs)), "ok".into());
+                }
+                self.adv = (mc, ma, resp_ms);
             }
             Op::Warm { addr, count } => {
                 let mut done = 0u64;
@@ -551,6 +583,8 @@ fn run_session(rep: &mut Report, spec: &SessionSpec) {
         spec,
         usb,
         h,
+        adv: (spec.adv_cmd, spec.adv_ack, spec.resp_ms),
+        opens: 0,
         host: Host { opened: false, next_id: 0, retry: 3, cfg_cmd: 128, cfg_ack: 128, dev_plan: vec![], dev_limits: None },
     };
     run.line(format!("c06 new {} {}", profile(), spec.seed), "ok".into());
@@ -694,7 +728,7 @@ fn main() {
                 sbrm_addr: if li % 3 == 0 { 0x1_0000 } else { 0x10_0000 + rng.below(1 << 30) * 4 },
                 adv_cmd: mc,
                 adv_ack: ma,
-                resp_ms: *rng.pick(&[0u32, 1, 500, 10_000, u32::MAX]),
+                resp_ms: [0u32, 1, 500, 10_000, u32::MAX][(li + pi) % 5],
                 ops,
                 model: true,
             };
@@ -727,6 +761,36 @@ fn main() {
         }
         let spec = SessionSpec { seed: 9, sbrm_addr: 0x1_0000, adv_cmd: 64, adv_ack: 64, resp_ms: 2, ops, model: true };
         run_session(&mut rep, &spec);
+    }
+
+    // re-opened handles: the request ids continue across close/open, the bootstrap registers are
+    // read with the initial 128/128 limits again, and the newly advertised limits / response time
+    // are in force from the first op after the open
+    {
+        let lenient = Op::Dev { mc: u32::MAX, ma: u32::MAX, ms: 0, plan: vec![] };
+        let mut ops = vec![Op::Open, Op::Dev { mc: 24, ma: 16, ms: 0, plan: vec![0, 1] }];
+        for n in [3usize, 9, 40] {
+            ops.push(Op::Write { addr: 0x7000, n, pat: n as u64 });
+            ops.push(Op::Read { addr: 0x7000, n });
+        }
+        ops.extend([Op::Close, lenient.clone(), Op::Advertise { mc: 1024, ma: 512, resp_ms: 0 }, Op::Open, Op::Dev { mc: 1024, ma: 512, ms: 0, plan: vec![] }]);
+        for n in [1usize, 499, 500, 501, 2100] {
+            ops.push(Op::Write { addr: 0x9000, n, pat: n as u64 });
+            ops.push(Op::Read { addr: 0x9000, n });
+        }
+        ops.extend([Op::Close, Op::Close, lenient.clone(), Op::Advertise { mc: 21, ma: 13, resp_ms: u32::MAX }, Op::Open, Op::Open, Op::Dev { mc: 21, ma: 13, ms: 0, plan: vec![] }]);
+        for n in [1usize, 2, 5] {
+            ops.push(Op::Write { addr: 0xA000, n, pat: n as u64 });
+            ops.push(Op::Read { addr: 0xA000, n });
+        }
+        ops.extend([Op::Close, lenient, Op::Advertise { mc: 64, ma: 64, resp_ms: 9 }, Op::Open, Op::Dev { mc: 64, ma: 64, ms: 0, plan: vec![1] }]);
+        for n in [52usize, 53, 150] {
+            ops.push(Op::Read { addr: 0x9000, n });
+        }
+        ops.push(Op::Close);
+        let spec = SessionSpec { seed: 11, sbrm_addr: 0x1_0000, adv_cmd: 24, adv_ack: 16, resp_ms: 2, ops, model: true };
+        run_session(&mut rep, &spec);
+        rep.count("sessions:re-opened-handle");
     }
 
     // request-id wrap: start near 65535 by doing many one-byte reads, then mixed ops across the wrap
